@@ -167,7 +167,20 @@ func genProgram(rt *rapid.T, allowFail bool) Case {
 	for i := 1; i <= n; i++ {
 		tag := tags[i-1]
 		// the spawner changes its variable after the spawn: the thread must keep the values given at the spawn
-		fmt.Fprintf(&b, "    let t%d = %q;\n    let n%d = %d;\n    spawn w(%d, t%d, n%d);\n    t%d = \"CHANGED\";\n    n%d = 0;\n", i, tag, i, iters, i, i, i, i, i)
+		// ... whatever kind of place the argument was read from: a variable, an object field, a list element
+		switch form := rapid.IntRange(0, 3).Draw(rt, "argForm"); form {
+		case 0:
+			fmt.Fprintf(&b, "    let t%d = %q;\n    let n%d = %d;\n    spawn w(%d, t%d, n%d);\n    t%d = \"CHANGED\";\n    n%d = 0;\n", i, tag, i, iters, i, i, i, i, i)
+		case 1:
+			pk.Class("spawn-arg:field")
+			fmt.Fprintf(&b, "    let o%d = new { t: %q, n: %d, id: %d };\n    spawn w(o%d.id, o%d.t, o%d.n);\n    o%d.t = \"CHANGED\";\n    o%d.n = 0;\n    o%d.id += 100;\n", i, tag, iters, i, i, i, i, i, i, i)
+		case 2:
+			pk.Class("spawn-arg:element")
+			fmt.Fprintf(&b, "    let lt%d = [%q, \"x\"];\n    let ln%d = [%d, %d];\n    spawn w(ln%d[1], lt%d[0], ln%d[-2]);\n    lt%d[0] = \"CHANGED\";\n    ln%d[0] = 0;\n    ln%d[1] = -1;\n", i, tag, i, iters, i, i, i, i, i, i, i)
+		default:
+			pk.Class("spawn-arg:nested")
+			fmt.Fprintf(&b, "    let d%d = new { inner: new { t: %q }, ns: [%d] };\n    spawn w(%d, d%d.inner.t, d%d.ns[0]);\n    d%d.inner.t = \"CHANGED\";\n    d%d.ns[0] = 0;\n", i, tag, iters, i, i, i, i, i)
+		}
 		for k := 1; k <= iters; k++ {
 			expect = append(expect, fmt.Sprintf("T%d:%s:%d\n", i, tag, k))
 		}
